@@ -30,6 +30,8 @@ import (
 	"github.com/VolantMQ/volantmq/types"
 )
 
+var errSessionExpired = errors.New("session expired")
+
 // load sessions owning subscriptions
 type subscriberConfig struct {
 	version mqttp.ProtocolVersion
@@ -83,6 +85,11 @@ type loadContext struct {
 	startTS        time.Time
 	preloadConfigs map[string]*preloadConfig
 	delayedWills   []mqttp.IFace
+	// LoadSession is invoked by the persistence backend while it iterates over its entries (and
+	// may hold its lock): what has to be removed from the backend is only noted here and removed
+	// once the iteration is over
+	wipeSessions      []string
+	wipeSubscriptions []string
 }
 
 // NewManager create new clients manager
@@ -155,6 +162,18 @@ func NewManager(c *Config) (*Manager, error) {
 
 		if err != nil {
 			return nil, err
+		}
+
+		for _, id := range context.wipeSubscriptions {
+			if e := m.persistence.SubscriptionsDelete([]byte(id)); e != nil && !errors.Is(e, vlpersistence.ErrNotFound) {
+				m.log.Error("Persisted subscriber delete", zap.Error(e))
+			}
+		}
+
+		for _, id := range context.wipeSessions {
+			if e := m.persistence.Delete([]byte(id)); e != nil && !errors.Is(e, vlpersistence.ErrNotFound) {
+				m.log.Error("Delete expired session", zap.Error(e))
+			}
 		}
 
 		m.configurePersistedSubscribers(context)
@@ -272,14 +291,17 @@ func (m *Manager) LoadSession(context interface{}, id []byte, state *vlpersisten
 	var err error
 
 	if err = m.decodeSessionExpiry(ctx, sID, state); err != nil {
+		if errors.Is(err, errSessionExpired) {
+			// nothing of an expired session is restored
+			return nil
+		}
+
 		m.log.Error("Decode session expiry", zap.String("ClientID", sID), zap.Error(err))
 	}
 
 	if err = m.decodeSubscriber(ctx, sID, state.Subscriptions); err != nil {
 		m.log.Error("Decode subscriber", zap.String("ClientID", sID), zap.Error(err))
-		if err = m.persistence.SubscriptionsDelete(id); err != nil && !errors.Is(err, vlpersistence.ErrNotFound) {
-			m.log.Error("Persisted subscriber delete", zap.Error(err))
-		}
+		ctx.wipeSubscriptions = append(ctx.wipeSubscriptions, sID)
 	}
 
 	m.Metrics.Clients().OnPersisted(1)
@@ -867,9 +889,7 @@ func (m *Manager) decodeSessionExpiry(ctx *loadContext, id string, state *vlpers
 		since, err = time.Parse(time.RFC3339, state.Expire.Since)
 		if err != nil {
 			m.log.Error("parse expiration value", zap.String("clientId", id), zap.Error(err))
-			if e := m.persistence.SubscriptionsDelete([]byte(id)); e != nil && !errors.Is(e, vlpersistence.ErrNotFound) {
-				m.log.Error("Persisted subscriber delete", zap.Error(e))
-			}
+			ctx.wipeSubscriptions = append(ctx.wipeSubscriptions, id)
 
 			return err
 		}
@@ -903,10 +923,10 @@ func (m *Manager) decodeSessionExpiry(ctx *loadContext, id string, state *vlpers
 
 			if time.Now().After(expireAt) {
 				// persisted session has expired, wipe it
-				if err = m.persistence.Delete([]byte(id)); err != nil && !errors.Is(err, vlpersistence.ErrNotFound) {
-					m.log.Error("Delete expired session", zap.Error(err))
-				}
-				return nil
+				ctx.wipeSessions = append(ctx.wipeSessions, id)
+				delete(ctx.preloadConfigs, id)
+
+				return errSessionExpired
 			}
 		} else {
 			m.log.Error("Decode expire at", zap.String("clientId", id), zap.Error(err))
